@@ -3,14 +3,14 @@ package main
 // One check per property: which rules it runs, what they decide and what they do not.
 
 var apiDocs = map[string]string{
-	"A0": "every path of every operation ends in a return (no panic, no unbounded loop, nothing the engine cannot follow)",
-	"A1": "every operation of the contract exists on the client interface",
-	"A2": "on every path exactly one request is handed to the send helper, or none when the call is rejected; discovery uses the broadcast helper, everything else the directed one",
-	"A3": "the request struct passed and the reply type expected both carry the operation's function code",
-	"A4": "every request byte offset carries exactly the argument/constant the protocol assigns to it, under every path condition; the controller id passed to the send helper is the first argument",
-	"A5": "a call is rejected (nothing sent, error returned) exactly under the documented conditions and for no other reason",
-	"A6": "for every reply the result leaves come from the protocol offsets, sentinels included; a send/receive error always fails the call",
-	"A7": "no operation writes through a map, slice or pointer argument",
+	"A0":  "every path of every operation ends in a return (no panic, no unbounded loop, nothing the engine cannot follow)",
+	"A1":  "every operation of the contract exists on the client interface",
+	"A2":  "on every path exactly one request is handed to the send helper, or none when the call is rejected; discovery uses the broadcast helper, everything else the directed one",
+	"A3":  "the request struct passed and the reply type expected both carry the operation's function code",
+	"A4":  "every request byte offset carries exactly the argument/constant the protocol assigns to it, under every path condition; the controller id passed to the send helper is the first argument",
+	"A5":  "a call is rejected (nothing sent, error returned) exactly under the documented conditions and for no other reason",
+	"A6":  "for every reply the result leaves come from the protocol offsets, sentinels included; a send/receive error always fails the call",
+	"A7":  "no operation writes through a map, slice or pointer argument",
 	"IM1": "no operation writes client state",
 }
 
